@@ -17,6 +17,7 @@ import (
 	"time"
 
 	"github.com/kelindar/column"
+	"github.com/kelindar/column/commit"
 )
 
 type raceSummary struct {
@@ -235,6 +236,51 @@ func cmdRace(args []string) {
 		}
 		run("snapshot+write", ws)
 		c.Close()
+	}
+
+	// 4. replication: a consumer goroutine replays the channel's commits into a replica while the
+	//    primary's writers (two blocks) go on recycling their commit pages
+	{
+		ch := make(commit.Channel, 4096)
+		c := column.NewCollection(column.Options{Vacuum: time.Hour, Capacity: 64, Writer: ch})
+		rep := column.NewCollection(column.Options{Vacuum: time.Hour, Capacity: 64})
+		for _, x := range []*column.Collection{c, rep} {
+			x.CreateColumn("a", column.ForInt64())
+			x.CreateColumn("s", column.ForString())
+		}
+		c.Query(func(txn *column.Txn) error {
+			for i := 0; i < 17000; i++ {
+				txn.Insert(func(r column.Row) error { r.SetInt64("a", int64(i)); r.SetString("s", "x"); return nil })
+			}
+			return nil
+		})
+		var ws []func(*int32, *int64)
+		for w := 0; w < 4; w++ {
+			w := w
+			ws = append(ws, loop(func(i int) {
+				off := uint32((i*7919 + w*131) % 17000)
+				c.QueryAt(off, func(r column.Row) error {
+					r.MergeInt64("a", 1)
+					if i%3 == 0 {
+						r.SetString("s", fmt.Sprint("v", i%11))
+					}
+					return nil
+				})
+			}))
+		}
+		ws = append(ws, func(stop *int32, ops *int64) {
+			for atomic.LoadInt32(stop) == 0 {
+				select {
+				case cm := <-ch:
+					rep.Replay(cm)
+					atomic.AddInt64(ops, 1)
+				case <-time.After(5 * time.Millisecond):
+				}
+			}
+		})
+		run("write+replicate", ws)
+		c.Close()
+		rep.Close()
 	}
 
 	if *known {
